@@ -14,6 +14,7 @@ DECIDES = ('non-Bezier input (degree + 1 != number of points), a non-positive el
 NOT_DECIDED = ('degrees beyond the enumerated ones (elevation 1..4 by 1..3, reduction 2..7); reduction of polygons that are not exactly degree-reducible (the error bound of Eqs. 5.45 / 5.46 is not implemented by the code either); floating-point accuracy of binomial quotients.')
 TECHNIQUE = 'CFG dominance of validation guards, polynomial normal forms of bounds and binomial arguments, kind rule on accumulator shape; bounded index-skeleton interpretation for row coverage'
 DECIDES += (' [ABSTRACT INTERPRETATION, exact] EL2: degree_elevation on symbolic control points is Eq. 5.36 exactly (degrees 1..4 x counts 1..3); degree_reduction applied to the exact elevation of a symbolic polygon returns that polygon (degrees 2..7); FD2: the binomial is not truncated from a float quotient (EQ536, END1 only corroborate).')
+DECIDES += (' EL2 also on polygons of rows of points and on inadmissible requests (count 0 / negative, non-Bezier polygon: rejected); DO2: operations.degree_operations on recorder curves gives every Bezier piece its helper result, the new degree and the knot vector a x (d+1), b x (d+1), also for elevation counts above degree + 1; DC9 on the deep copies it works on.')
 
 
 def site(fi, node=None):
